@@ -24,6 +24,7 @@ Require Import V.Proofs.ExclPublicationProofs.
 Require Import V.Proofs.C04Statements.
 Require Import V.Oracle.C04Oracle.
 Require Import V.Proofs.C04OracleProofs.
+Require Import V.Proofs.C04XOracleProofs.
 Open Scope Z_scope.
 
 (* every reachable state satisfies the invariant the other statements are proved from *)
@@ -205,6 +206,14 @@ Theorem C04_oracle_flow : forall m rv s n off o s0 r0 n0 off0,
 Proof. exact oracle_flow_shared. Qed.
 Print Assumptions C04_oracle_flow.
 
+(* the same for the exclusive publication, from every reachable state *)
+Theorem C04_oracle_flow_exclusive : forall m rv x o x0 r0 n0 off0,
+  xreachable m rv x -> op_ok (xlog x) o -> is_xappend o = true ->
+  flow_append (geom_of (xlog x) n0 off0) (env_of (x_pub x)) (kind_of o) (op_len o)
+              (xpub_obs m x0 x r0) (xpub_obs m x (fst (xpub_step m rv x o)) (snd (xpub_step m rv x o))) = true.
+Proof. exact oracle_flow_exclusive_reachable. Qed.
+Print Assumptions C04_oracle_flow_exclusive.
+
 (* the complete per-step predicate (flow and bytes) on every refusal *)
 Theorem C04_oracle_refusal : forall m rv s n off o s0 r0 n0 off0 e,
   pub_inv n off s -> op_ok (ps_log s) o -> is_append o = true ->
@@ -218,7 +227,7 @@ Print Assumptions C04_oracle_refusal.
    exactly full) and nothing in the other partitions.
    Partial: it assumes the active partition's content ends where its tail counter says (`content_ok`: true at hand-over, see the
    example below, and kept as long as the driver cleans a partition before the log rotates into it); the bytes part for
-   accepted appends (`appended_words`: every changed word inside [tail, tail + required)) and for the exclusive publication,
+   accepted appends (`appended_words`: every changed word inside [tail, tail + required)), the bytes part for the exclusive publication,
    and the composition over whole histories
      forall ops, clean_before_reuse ops -> holds_history g (map oop_of ops) (pub_trace m rv (pub_init (handover_log h)) ops) = true
    are not proved; those predicates are evaluated on the implementation's observations and compared with the model on every run. *)
